@@ -1073,6 +1073,15 @@ theorem inv_addInst {s : State} (inv : Inv s) (c : InstCfg) (hfree : s.insts c.i
     obtain ⟨y, hy, hl⟩ := inv.histLegit m hm hw
     exact ⟨y, keep _ _ hy, hl⟩
 
+/-- Replacing an instance by one with the same term, revision field and reads, and no new acknowledged writes. -/
+theorem inv_setInst_book {s : State} (inv : Inv s) {i : Nat} {x x' : Inst} (hx : s.insts i = some x) (hcfg : x'.cfg = x.cfg)
+    (hl : x'.lead = x.lead) (hr : x'.hbRev = x.hbRev) (ha : ∀ m, m ∈ x'.acked → m ∈ x.acked) (hs : x'.seen = x.seen) :
+    Inv (s.setInst x') := by
+  apply inv_setInst inv hx hcfg
+  · intro t ht; rw [hr]; exact inv.leadOwn _ x t hx (by rw [← hl]; exact ht)
+  · intro t r hm; exact inv.ackOwn _ x t r hx (ha _ hm)
+  · intro r v hm; exact inv.seenHist _ x r v hx (by rw [← hs]; exact hm)
+
 /-- Every step preserves the invariant. -/
 theorem inv_step {s s' : State} (inv : Inv s) (uq : OpsUniq s) {e : TEv} (h : step s e = .ok s') : Inv s' := by
   unfold step at h
@@ -1096,24 +1105,38 @@ theorem inv_step {s s' : State} (inv : Inv s) (uq : OpsUniq s) {e : TEv} (h : st
     split at h
     · rename_i x hx
       cases h
-      apply inv_setInst inv hx
-      · rfl
-      · intro t ht; exact inv.leadOwn _ x t hx ht
-      · intro t r hm; exact inv.ackOwn _ x t r hx hm
-      · intro r v hm; exact inv.seenHist _ x r v hx hm
+      exact inv_setInst_book inv hx rfl rfl rfl (fun _ hm => hm) rfl
     · cases h; exact inv
-  · -- api return
-    rename_i n i _
+  · -- api stop
     split at h
     · rename_i x hx
       cases h
-      split
-      · apply inv_setInst inv hx
-        · rfl
-        · intro t ht; exact inv.leadOwn _ x t hx ht
-        · intro t r hm; exact inv.ackOwn _ x t r hx hm
-        · intro r v hm; exact inv.seenHist _ x r v hx hm
-      · exact inv
+      exact inv_setInst_book inv hx rfl rfl rfl (fun _ hm => hm) rfl
+    · cases h; exact inv
+  · -- context cancelled
+    split at h
+    · rename_i x hx
+      cases h
+      exact inv_setInst_book inv hx rfl rfl rfl (fun _ hm => hm) rfl
+    · cases h; exact inv
+  · -- api start
+    split at h
+    · rename_i x hx
+      cases h
+      exact inv_setInst_book inv hx rfl rfl rfl (fun _ hm => hm) rfl
+    · cases h; exact inv
+  · -- api return
+    split at h
+    · rename_i x hx
+      split at h
+      · cases h
+        exact inv_setInst_book inv hx rfl rfl rfl (fun _ hm => hm) rfl
+      · split at h
+        · cases h
+          split
+          · exact inv_setInst_book inv hx rfl rfl rfl (fun _ hm => by cases hm) rfl
+          · exact inv_setInst_book inv hx rfl rfl rfl (fun _ hm => hm) rfl
+        · cases h; exact inv
     · cases h; exact inv
   · cases h; exact inv
 
@@ -1283,8 +1306,15 @@ theorem uniq_step {s s' : State} (uq : OpsUniq s) {e : TEv} (h : step s e = .ok 
           · cases h
       · cases h; exact uq
   · split at h <;> (cases h; exact uq)
+  · split at h <;> (cases h; exact uq)
+  · split at h <;> (cases h; exact uq)
+  · split at h <;> (cases h; exact uq)
   · split at h
-    · cases h; split <;> exact uq
+    · split at h
+      · cases h; exact uq
+      · split at h
+        · cases h; split <;> exact uq
+        · cases h; exact uq
     · cases h; exact uq
   · cases h; exact uq
 
